@@ -34,3 +34,44 @@ fn deques_tagged_rc() {
     assert!(Rc::strong_count(&k2) == 1);
     assert!(deqs.probation.peek_front().is_none() && deqs.write_order.peek_front().is_none());
 }
+
+fn an_instant(secs: u64) -> crate::common::time::Instant {
+    let base: std::time::Instant = unsafe { std::mem::zeroed() };
+    crate::common::time::Instant::new(base + std::time::Duration::from_secs(secs))
+}
+
+/// THE ENTRY <-> NODE STAMP COUPLING on the real code (the content of the Verus axioms `axiom_stamp_ao` / `axiom_stamp_wo` and of
+/// the assumed setters of `impl AccessTime for ValueEntry`, src/unsync.rs): an entry's stamps are physically the `timestamp`
+/// fields of the two list nodes its slots point to; what a scan reads through the list (`peek_front`, then the node's
+/// `last_accessed` / `last_modified`) is what the entry's own getters return; without a node there is no stamp. One entry,
+/// symbolic stamps and region tag, loop-free: complete for one entry (nothing about aliasing between entries is claimed).
+#[kani::proof]
+#[kani::unwind(3)]   // only loop: Drop of the (by then empty) lists; the unwinding assertion makes the bound exact
+fn entry_node_stamp_coupling() {
+    let mut deqs: Deques<u8> = Deques::default();
+    let k = Rc::new(1u8);
+    let mut e: ValueEntry<u8, u8> = ValueEntry::new(10, 1);
+    assert!(e.last_accessed().is_none() && e.last_modified().is_none());
+    let (s0, s1, s2): (u64, u64, u64) = (kani::any(), kani::any(), kani::any());
+    kani::assume(s0 < 1_000_000 && s1 < 1_000_000 && s2 < 1_000_000);
+    // a setter without a node stores nothing
+    e.set_last_accessed(an_instant(s0)); e.set_last_modified(an_instant(s0));
+    assert!(e.last_accessed().is_none() && e.last_modified().is_none());
+    let with_stamp: bool = kani::any();
+    let t0 = if with_stamp { Some(an_instant(s0)) } else { None };
+    deqs.push_back_ao(CacheRegion::MainProbation, KeyHashDate::new(Rc::clone(&k), 7, t0), &mut e);
+    deqs.push_back_wo(KeyDate::new(Rc::clone(&k), t0), &mut e);
+    // the stamps the constructors put into the nodes are the entry's stamps
+    assert!(e.last_accessed() == t0 && e.last_modified() == t0);
+    e.set_last_accessed(an_instant(s1));
+    e.set_last_modified(an_instant(s2));
+    assert!(e.last_accessed() == Some(an_instant(s1)) && e.last_modified() == Some(an_instant(s2)));
+    // ... and they are what the expiry scans read through the front node of each list
+    let ao = deqs.probation.peek_front().unwrap();
+    let wo = deqs.write_order.peek_front().unwrap();
+    assert!(ao.last_accessed() == e.last_accessed() && ao.element.timestamp == Some(an_instant(s1)) && ao.last_modified().is_none());
+    assert!(wo.last_modified() == e.last_modified() && wo.element.timestamp == Some(an_instant(s2)) && wo.last_accessed().is_none());
+    deqs.unlink_ao(&mut e);
+    Deques::unlink_wo(&mut deqs.write_order, &mut e);
+    assert!(e.last_accessed().is_none() && e.last_modified().is_none());
+}
